@@ -36,7 +36,7 @@ func (t *tasks) do(name string, fn func()) {
 }
 
 func main() {
-	c := mon.Init("C17C")
+	c := mon.Init("C17")
 	var wg sync.WaitGroup
 	for _, it := range permlook.All {
 		if !mon.Selected(it.Name) {
